@@ -1490,7 +1490,7 @@ fn read_def_rhythm_macro(cur: &mut SourceCursor, song: &mut Song) {
     }
     cur.skip_space();
     let s = cur.get_token_nest('{', '}');
-    if 0x40 <= ch as u8 && ch as u8 <= 0x7F {
+    if 0x40 <= ch as u32 && ch as u32 <= 0x7F {
         song.rhthm_macro[ch as usize - 0x40] = s;
     } else {
         song.add_log(format!(
@@ -1836,7 +1836,10 @@ fn read_cc(cur: &mut SourceCursor, song: &mut Song, ch: char) -> Token {
     if cur.eq_char(',') {
         cur.next(); // skip ','
     }
-    let val_token = read_calc(cur, song).unwrap();
+    let val_token = match read_calc(cur, song) {
+        Some(t) => t,
+        None => return read_error_cmd(cur, song, "ControlChange"), // missing value
+    };
     let cc_token = Token::new_tokens(TokenType::ControlChange, no, vec![val_token]);
     if ch == 'C' {
         cur.skip_space();
